@@ -1,9 +1,9 @@
 SPECIFICATION Spec
 CONSTANTS
-  File <- RFile
-  FDataSeq <- RData
-  FOther <- ROther
-  FSplit <- RSplit
+  File <- DFile
+  FDataSeq <- DData
+  FOther <- DOther
+  FSplit <- DSplit
   Caps <- QCaps
 INVARIANTS TypeOK C13_Counter C15_PinExact C17_NoOverclaim
 PROPERTIES C12_GCSafe C13_Bounded C16_OthersIntact C16_NoOrphans
